@@ -135,16 +135,37 @@ pub fn pw_nums<T: Nums>(p: &Piecewise<T>) -> Vec<f64> {
     }
     v
 }
+/// One function in four (decided by its own content, no generator state) is built in a vector with several times
+/// more capacity than pieces, as one grown by pushes or cut down with truncate() has.
+pub fn with_spare_capacity<S>(segments: Vec<S>, key: u64) -> Vec<S> {
+    if key % 4 != 0 {
+        return segments;
+    }
+    let mut v = Vec::with_capacity(segments.len() * 5 + 64);
+    v.extend(segments);
+    v
+}
+
+/// copy of a function for an operator that consumes or mutates it; one in four lives in a vector with spare capacity
+/// (a plain clone() always has capacity == length)
+pub fn dup<T: Clone>(pw: &Piecewise<T>) -> Piecewise<T> {
+    let key = pw.segments.iter().fold(pw.segments.len() as u64, |a, s| a.wrapping_mul(31).wrapping_add(s.end.to_bits() >> 7));
+    Piecewise { segments: with_spare_capacity(pw.segments.clone(), key) }
+}
+
 pub fn pw_from<T: Nums>(ends: &[f64], coeffs: &[Vec<f64>]) -> Piecewise<T> {
+    let key = ends.iter().fold(ends.len() as u64, |a, e| a.wrapping_mul(31).wrapping_add(e.to_bits() >> 7));
     Piecewise {
-        segments: ends
-            .iter()
-            .zip(coeffs.iter())
-            .map(|(e, c)| Segment {
-                end: *e,
-                poly: T::from_nums(c),
-            })
-            .collect(),
+        segments: with_spare_capacity(
+            ends.iter()
+                .zip(coeffs.iter())
+                .map(|(e, c)| Segment {
+                    end: *e,
+                    poly: T::from_nums(c),
+                })
+                .collect(),
+            key,
+        ),
     }
 }
 /// With probability 1/4 make one or two runs of neighbouring pieces identical (same coefficients): a function whose
